@@ -172,6 +172,22 @@ def scan (fl : Flags) : List Char → Flags
   | 'F' :: rest => scan { fl with f := true } rest
   | _ :: rest => scan fl rest
 
+/-- in a hexadecimal constant `f` and `F` are digits up to the binary exponent (`p`/`P`): the repaired loop does not take them
+for a suffix there.  Masking them by a neutral character gives the repaired loop from the loop above (the two-character
+look-aheads `ll`, `LL`, `u8` see a character that is none of `l L 8` either way). -/
+def maskHexF : List Char → List Char
+  | [] => []
+  | c :: rest => if c = 'p' ∨ c = 'P' then c :: rest else (if c = 'f' ∨ c = 'F' then '0' else c) :: maskHexF rest
+
+/-- `Lexeme::checkHexAndOctalPrefix`: `F_.hex_` -/
+def isHexSpelling : List Char → Bool
+  | '0' :: 'x' :: _ => true
+  | '0' :: 'X' :: _ => true
+  | _ => false
+
+/-- `Lexeme::checkVariousPrefixesAndSuffixes` on a numeric constant -/
+def scanNum (cs : List Char) : Flags := scan {} (if isHexSpelling cs then maskHexF cs else cs)
+
 /-- `IntegerConstant::representationSuffix` -/
 def intSuffix (fl : Flags) : Suffix :=
   if fl.ll then (if fl.u || fl.U then .llu else .ll)
